@@ -844,6 +844,20 @@ def install_datetime(w):
 
     w.reg(meth(DT, "replace"), dt_replace, "datetime.replace")
 
+    def time_replace(ex, st, args, kw, line):
+        self = args[0]
+        names = ["hour", "minute", "second", "microsecond", "tzinfo"]
+        cur = {n: self.f[n] for n in names}
+        fold = kw.pop("fold", self.fold) if "fold" in kw else self.fold
+        v = _kwbind(names, cur, args[1:], kw, line)
+        if v is None:
+            ex.pending_raise(st, ExcVal(TypeError, line=line))
+            return
+        # CPython: time.replace builds type(self)(...) through the class
+        yield from ex.world.instantiate(ex, st, self.cls, [v[n] for n in names], {"fold": fold}, line)
+
+    w.reg(meth(TIME, "replace"), time_replace, "time.replace")
+
     def dt_add(ex, st, args, kw, line):
         a, b = args
         if not is_td(b):
